@@ -42,10 +42,12 @@ vmod!(storage_reads, "c36_storage.rs");
 vmod!(ret, "c34_ret.rs");
 vmod!(misc, "c29_misc.rs");
 vmod!(slots, "c33_storage_slots.rs");
+vmod!(slotst, "slot_storage.rs");
 vmod!(assets, "c27_assets.rs");
 vmod!(dbg, "c32_debugger.rs");
 vmod!(crypto17, "c17_crypto.rs");
 vmod!(init31, "c31_init.rs");
+vmod!(meta05, "c05_meta.rs");
 
 /// Counterexample replay (lib/replay.py): generated concrete-playback tests.
 #[cfg(verif_playback)]
